@@ -185,6 +185,10 @@ def materialise(spec, slots):
             return slots[v]
         if t == "qproxy":  # the live .query of a pool URL, passed back in as an argument
             return slots[v].query
+        if t == "ref":  # a caller-owned container created by an earlier "mk" op (the very object)
+            return slots[v]
+        if t == "refproxy":  # a read-only proxy the caller made of its own MultiDict
+            return multidict.MultiDictProxy(slots[v])
         if t == "obj":
             return Opaque()
         if t == "text":  # run-length text: [[unit, repetitions], ...] (+ optional prefix/suffix)
@@ -430,9 +434,16 @@ def _operand(slots, idx):
     return slots[idx]
 
 
+REF_KINDS = ("url", "qproxy", "ref", "refproxy")
+
+
+def is_url(x):
+    return URL is not None and type(x) is URL
+
+
 def _collect_url_refs(spec, acc):
     if isinstance(spec, dict):
-        if spec.get("$") in ("url", "qproxy"):
+        if spec.get("$") in REF_KINDS:
             acc.append(spec["v"])
         else:
             for v in spec.values():
@@ -474,6 +485,9 @@ def apply_op(op, slots):
             res = _dispatch(name, op, slots, args, kwargs)
         if URL is not None and type(res) is URL:
             out = ["url", vrepr(res)]
+        elif name == "mk":
+            out = ["ok", vrepr(res)]
+            return out, res, None
         else:
             out = ["ok", vrepr(res)]
             if name not in URLISH_OPS:
@@ -505,6 +519,37 @@ def _dispatch(name, op, slots, args, kwargs):
         return URL(*args, **kwargs)
     if name == "build":
         return URL.build(**kwargs)
+    if name == "mk":
+        return args[0]
+    if name == "mutate":
+        # the *caller* changes a container it owns (and may have passed to yarl earlier)
+        c = _operand(slots, op.get("on"))
+        how = args[0]
+        if isinstance(c, (multidict.MultiDict,)):
+            if how == "add":
+                c.add(args[1], args[2])
+            elif how == "set":
+                c[args[1]] = args[2]
+            elif how == "clear":
+                c.clear()
+            else:
+                c.popall(args[1], None)
+        elif isinstance(c, dict):
+            if how == "clear":
+                c.clear()
+            elif how == "pop":
+                c.pop(args[1], None)
+            else:
+                c[args[1]] = args[2]
+        elif isinstance(c, list):
+            if how == "clear":
+                del c[:]
+            elif how == "pop":
+                if c:
+                    c.pop()
+            else:
+                c.append((args[1], args[2]))
+        return None
     if name == "qcall":
         from yarl import _quoters as _q
 
@@ -913,6 +958,30 @@ def gen_read(rng, live):
     return {"op": "deep", "on": on, "args": [order]}
 
 
+def gen_mk(rng, at):
+    r = rng.random()
+    n = rng.randint(1, 3)
+    if r < 0.6:
+        spec = {"$": "md", "v": [[rng.choice(at.qkeys), rng.choice(at.qvals)] for _ in range(n)]}
+    elif r < 0.8:
+        ks = list(dict.fromkeys(rng.choice(at.qkeys) for _ in range(n)))
+        spec = {"$": "dict", "v": [[k, rng.choice(at.qvals)] for k in ks]}
+    else:
+        spec = {"$": "pairs", "as": "list", "v": [[rng.choice(at.qkeys), rng.choice(at.qvals)] for _ in range(n)]}
+    return {"op": "mk", "args": [spec]}
+
+
+def gen_mutate(rng, at, containers):
+    return {"op": "mutate", "on": rng.choice(containers), "args": [rng.choice(["add", "set", "clear", "pop", "add"]), rng.choice(at.qkeys), rng.choice(at.qvals)]}
+
+
+def gen_query_op_with_ref(rng, live, containers, slots):
+    c = rng.choice(containers)
+    kind = "refproxy" if isinstance(slots[c], multidict.MultiDict) and rng.random() < 0.6 else "ref"
+    name = rng.choice(["with_query", "with_query", "extend_query", "update_query", "mod"])
+    return {"op": name, "on": rng.choice(live), "args": [{"$": kind, "v": c}]}
+
+
 def gen_state_op(rng, internal=True):
     r = rng.random()
     if r < 0.3:
@@ -943,7 +1012,7 @@ def _leaves(spec, path, acc):
     if isinstance(spec, dict):
         if spec.get("$") == "strsub":
             acc.append((path, spec))
-        elif spec.get("$") in ("url", "qproxy", "text"):
+        elif spec.get("$") in ("url", "qproxy", "text", "ref", "refproxy"):
             return
         elif "$" in spec:
             if spec["$"] in ("dict", "md", "cimd", "mdp", "pairs", "list", "tuple"):
@@ -1076,6 +1145,9 @@ def closure(ops, k):
             continue
         need.add(i)
         stack.extend(d for d in op_deps(ops[i]) if d not in need)
+        if ops[i]["op"] == "mk":
+            # every earlier mutation of a caller-owned container is part of its value at op k
+            stack.extend(j for j in range(i + 1, k) if ops[j]["op"] == "mutate" and ops[j].get("on") == i and j not in need)
     return sorted(need)
 
 
@@ -1096,7 +1168,7 @@ def remap_ops(ops, keep):
 
     def rm(spec):
         if isinstance(spec, dict):
-            if spec.get("$") in ("url", "qproxy"):
+            if spec.get("$") in REF_KINDS:
                 return {"$": spec["$"], "v": m[spec["v"]]}
             return {k: rm(v) for k, v in spec.items()}
         if isinstance(spec, list):
